@@ -33,7 +33,7 @@ Proof. exact (span_repr s i t i'). Qed.
 
 (* ---- flat statements ---------------------------------------------------------------------------------- *)
 Definition flat_stmt (st : astmt) : bool :=
-  match st with SKeyVal p a => Nat.eqb (length p) 1 && simple_inline a | _ => false end.
+  match st with SKeyVal p _ => Nat.eqb (length p) 1 | _ => false end.
 Definition flat (l : list astmt) : bool := forallb flat_stmt l.
 
 (* a key/value line as Display prints it (Model/Encode.v visit_table) *)
@@ -50,11 +50,11 @@ Lemma parse_keyval_render s i x i1 : isrc s i -> parse_keyval i = Ok x i1 ->
     ws_tok w0 /\ key_tok kt p /\ ws_tok w1 /\ ws_tok w2 /\ vtext t a o /\ ws_tok w /\ opt_comment c
     /\ splits i w0 j0 /\ splits i (w0 ++ ((kt ++ w1 ++ [x3d] ++ w2 ++ t) ++ w ++ c) ++ le) i1
     /\ lend le (rest i1) /\ isrc s i1
-    /\ (flat_stmt (SKeyVal p a) = true ->
-        exists k v, x = ([], (k, IValue v)) /\ undot v = true
+    /\ (length p = 1 ->
+        exists k v, x = ([], (k, IValue v))
           /\ d_prefix (k_leaf k) = Some (raw_with_span (pos i, pos j0))
-          /\ forall P z, kv_line s (with_prefix k P, v) ++ z
-                         = raw_encode (traw s P) [] ++ ((kt ++ w1 ++ [x3d] ++ w2 ++ o) ++ w ++ c) ++ [x0a] ++ z).
+          /\ (vplain v = true -> forall P z, kv_line s (with_prefix k P, v) ++ z
+                         = raw_encode (traw s P) [] ++ ((kt ++ w1 ++ [x3d] ++ w2 ++ o) ++ w ++ c) ++ [x0a] ++ z)).
 Proof.
   rewrite parse_keyval_unfold. intros Hi H. apply bind_inv in H as (kp & j1 & H1 & H).
   destruct (key_render s i kp j1 Hi H1) as (w0 & kt & w1 & Hw0 & Hkt & Hw1 & S1 & Hj1 & _).
@@ -84,7 +84,7 @@ Proof.
   split; [|split; [exact Hl|split; [exact Hm2|]]].
   - pose proof (splits_trans _ _ _ _ _ S1 (splits_trans _ _ _ _ _ Se (splits_trans _ _ _ _ _ S2 (splits_trans _ _ _ _ _ S3 (splits_trans _ _ _ _ _ Swc Sle))))) as S.
     rewrite <- !app_assoc in *. exact S.
-  - cbn [flat_stmt]. intro Hs. apply andb_true_iff in Hs as [Hl1 Hs]. apply Nat.eqb_eq in Hl1. rewrite map_length in Hl1.
+  - intro Hl1. rewrite map_length in Hl1.
     destruct (key_single s i kp j1 Hi H1 Hl1) as (ja & jb & w0' & kt' & w1' & k0 & -> & Hw0' & Hkt' & Hw1' & Sa & Sb & Sc' & Erepr & Eleaf).
     cbn [pop_key rev app] in Ep. injection Ep as <- <-.
     (* the two decompositions of the key text agree *)
@@ -101,14 +101,14 @@ Proof.
     { pose proof (splits_trans _ _ _ _ _ Sa (splits_trans _ _ _ _ _ Sb Sc')) as [R' _]. destruct S1 as [R1 _]. rewrite R' in R1.
       rewrite <- !app_assoc in R1. apply app_inv_head in R1. rewrite !app_assoc in R1. apply app_inv_tail in R1. exact R1. }
     exists k0, (value_decorate v' (raw_with_span pre') (raw_with_span sp)). split; [reflexivity|].
-    split; [rewrite undot_decorate; apply Hv|]. split; [rewrite Eleaf; reflexivity|]. intros P z.
+    split; [rewrite Eleaf; reflexivity|]. intros Hs P z. rewrite vplain_decorate in Hs.
     destruct (isrc_splits s i w0 j0 Hi Sa) as [Hja _]. destruct (isrc_splits s j0 kt' jb Hja Sb) as [Hjb _].
     unfold kv_line, with_prefix. cbn [fst snd]. unfold encode_key_path. cbn [rev app map encode_key_path_loop].
     unfold key_display_repr, decor_prefix, decor_suffix. rewrite tkey_fields. cbn [set_leaf k_key k_repr k_leaf k_dotted tdecor d_prefix d_suffix toraw].
     rewrite Eleaf, Erepr. cbn [decor_new d_suffix toraw]. rewrite (span_repr' s j0 kt' jb Hja Sb).
     rewrite (span_prints s jb w1' j1 _ Hjb Sc'), (ncr_ws w1' Hw1').
     subst pre' sp.
-    rewrite (vrend_decorated s v' a o k1 w2 k2 k3 (w ++ c) m1 Hv Hk1 S2 Hk3 Swc Hs _ DEFAULT_VALUE_DECOR (Nat.lt_succ_diag_r _)).
+    rewrite (vrend_decorated s v' o k1 w2 k2 k3 (w ++ c) m1 Hv Hk1 S2 Hk3 Swc Hs _ DEFAULT_VALUE_DECOR (Nat.lt_succ_diag_r _)).
     rewrite (ncr_ws w2 Hw2), ncr_app, (ncr_ws w Hw), (ncr_opt_comment c Hc).
     repeat first [rewrite <- app_assoc | progress cbn [app]]. f_equal.
     assert (E2 : forall y0, kt' ++ w1' ++ y0 = kt ++ w1 ++ y0) by (intro y0; rewrite !app_assoc, Etxt; reflexivity).
@@ -116,8 +116,6 @@ Proof.
 Qed.
 
 (* ---- Display of a flat table ------------------------------------------------------------------------------- *)
-Definition mk_item (kv : key * value) : key * item := (fst kv, IValue (snd kv)).
-
 Lemma ttbl_unfold s items d im dt p sp :
   ttbl s (Tbl items d im dt p sp) = Tbl (map (tkv s) items) (tdecor s d) im dt p None.
 Proof.
@@ -149,11 +147,13 @@ Proof.
   induction kvl as [|[k v] tl IH]; [reflexivity|]. cbn [map mk_item flat_map tkv fst snd]. rewrite titem_value. cbn [app]. exact IH.
 Qed.
 
-Lemma display_flat s kvl ps sp tr : Forall (fun kv : key * value => undot (snd kv) = true) kvl ->
+Lemma display_flat s kvl ps sp tr : Forall (fun kv : key * value => vplain (snd kv) = true) kvl ->
   display_document (ttbl s (Tbl (map mk_item kvl) decor_default false false ps sp)) tr
   = flat_map (kv_line s) kvl ++ raw_encode tr [].
 Proof.
-  intro Hu. rewrite ttbl_unfold. unfold display_document. rewrite nested_flat.
+  intro Hpl. assert (Hu : Forall (fun kv : key * value => undot (snd kv) = true) kvl)
+    by (eapply Forall_impl; [|exact Hpl]; intros kv0 Hk0; apply vplain_undot, Hk0).
+  clear Hpl. rewrite ttbl_unfold. unfold display_document. rewrite nested_flat.
   cbn [assign_positions stable_sort fold_left insert_sorted visit_tables].
   unfold visit_table. cbn [t_items t_implicit t_decor]. rewrite (table_values_plain s _ kvl Hu).
   unfold decor_prefix, decor_suffix. cbn [tdecor decor_default d_prefix d_suffix toraw DEFAULT_ROOT_DECOR fst snd app].
@@ -163,16 +163,22 @@ Proof.
 Qed.
 
 (* ---- the parse state of a flat document ---------------------------------------------------------------------- *)
-Definition flat_inv (s : bytes) (st : pstate) (i : input) (kvl : list (key * value)) (i0 : input) (pend : bytes) : Prop :=
+(* the pairs stored so far, and for each of them the text its line prints as — provided its value
+   is plain (decided on the finished tree) *)
+Definition line_out (s : bytes) (kv : key * value) (ol : bytes) : Prop :=
+  vplain (snd kv) = true -> forall z, kv_line s kv ++ z = ol ++ z.
+
+Definition flat_inv (s : bytes) (st : pstate) (i : input) (kvl : list (key * value)) (outs : list bytes)
+           (i0 : input) (pend : bytes) : Prop :=
   st_root st = tbl_new /\ st_path st = [] /\
   (exists ps sp, st_current st = Tbl (map mk_item kvl) decor_default false false ps sp) /\
-  Forall (fun kv : key * value => undot (snd kv) = true) kvl /\
+  Forall2 (line_out s) kvl outs /\
   st_trailing st = Some (pos i0, pos i) /\ isrc s i0 /\ splits i0 pend i.
 
-Definition flat_out (s : bytes) (kvl : list (key * value)) (pend : bytes) : bytes := flat_map (kv_line s) kvl ++ ncr pend.
+Definition flat_out (outs : list bytes) (pend : bytes) : bytes := concat outs ++ ncr pend.
 
-Lemma flat_inv_on_ws s st i kvl i0 pend w i1 :
-  flat_inv s st i kvl i0 pend -> splits i w i1 -> flat_inv s (on_ws st (pos i, pos i1)) i1 kvl i0 (pend ++ w).
+Lemma flat_inv_on_ws s st i kvl outs i0 pend w i1 :
+  flat_inv s st i kvl outs i0 pend -> splits i w i1 -> flat_inv s (on_ws st (pos i, pos i1)) i1 kvl outs i0 (pend ++ w).
 Proof.
   intros (Hr & Hp & Hc & Hu & Ht & Hi0 & Sp) Sw. unfold flat_inv, on_ws. cbn [st_root st_path st_current st_trailing].
   rewrite Ht. cbn [fst snd]. repeat (split; [assumption|]). split; [reflexivity|]. split; [exact Hi0|exact (splits_trans _ _ _ _ _ Sp Sw)].
@@ -224,11 +230,11 @@ Definition le_out (l : list astmt) (le : bytes) : bytes := match le with [] => s
 Lemma newline_le_out l le : newline_tok le -> le_out l le = [x0a].
 Proof. intros [-> | ->]; reflexivity. Qed.
 
-Definition line_ok (s : bytes) (st : pstate) (i : input) (st1 : pstate) (i1 : input)
-           (w0 : bytes) (l : list astmt) (o le w : bytes) : Prop :=
-  forall kvl i0 pend, flat_inv s st i kvl i0 pend -> flat l = true ->
-    exists kvl' i0' pend', flat_inv s st1 i1 kvl' i0' pend'
-      /\ flat_out s kvl' pend' = flat_out s kvl pend ++ w0 ++ o ++ le_out l le ++ w.
+(* a step of the parser that read the text whose normal form is o *)
+Definition step_ok (s : bytes) (st : pstate) (i : input) (st1 : pstate) (i1 : input) (l : list astmt) (o : bytes) : Prop :=
+  forall kvl outs i0 pend, flat_inv s st i kvl outs i0 pend -> flat l = true ->
+    exists kvl' outs' i0' pend', flat_inv s st1 i1 kvl' outs' i0' pend'
+      /\ flat_out outs' pend' = flat_out outs pend ++ o.
 
 Lemma header_item_text arr t p w c : table_tok arr t p -> ws_tok w -> opt_comment c ->
   item_text (t ++ w ++ c) [if arr then SArrHeader p else SHeader p] (t ++ w ++ c).
@@ -241,9 +247,9 @@ Proof.
   apply span_ws_inv in H as (w & Hw & S & _). eauto.
 Qed.
 
-Lemma flat_inv_trivia s st i kvl i0 pend x j w i1 :
-  flat_inv s st i kvl i0 pend -> splits i x j -> splits j w i1 ->
-  flat_inv s (on_ws (on_ws st (pos i, pos j)) (pos j, pos i1)) i1 kvl i0 (pend ++ x ++ w).
+Lemma flat_inv_trivia s st i kvl outs i0 pend x j w i1 :
+  flat_inv s st i kvl outs i0 pend -> splits i x j -> splits j w i1 ->
+  flat_inv s (on_ws (on_ws st (pos i, pos j)) (pos j, pos i1)) i1 kvl outs i0 (pend ++ x ++ w).
 Proof.
   intros HI Sx Sw. rewrite app_assoc. apply flat_inv_on_ws; [|exact Sw]. apply flat_inv_on_ws; assumption.
 Qed.
@@ -252,7 +258,7 @@ Lemma doc_line_render s st i st1 i1 : isrc s i -> doc_line st i = Ok st1 i1 ->
   exists w0 e l o le w,
     ws_tok w0 /\ item_text e l o /\ ws_tok w /\ splits i (w0 ++ e ++ le ++ w) i1
     /\ (newline_tok le \/ (le = [] /\ w = [] /\ rest i1 = [])) /\ isrc s i1
-    /\ line_ok s st i st1 i1 w0 l o le w.
+    /\ step_ok s st i st1 i1 l (w0 ++ o ++ le_out l le ++ w).
 Proof.
   rewrite doc_line_unfold. intros Hi H. apply bind_inv in H as (b & j & H1 & H). apply peek_inv in H1 as [-> _].
   apply bind_inv in H as (st0 & j1 & H2 & H3). apply parse_ws_exact in H3 as (w & Hw & Sw & ->).
@@ -272,7 +278,7 @@ Proof.
     exists [], c, [], c, le, w. split; [reflexivity|]. split; [apply itx_comment, Hc|]. split; [exact Hw|].
     split; [pose proof (splits_trans _ _ _ _ _ S12 Sw) as S; rewrite <- !app_assoc in S; exact S|].
     split; [apply Hend, Hl|]. split; [exact Hi1|].
-    intros kvl i0 pend HI _. exists kvl, i0, (pend ++ (c ++ le) ++ w). split; [apply flat_inv_trivia; assumption|].
+    intros kvl outs i0 pend HI _. exists kvl, outs, i0, (pend ++ (c ++ le) ++ w). split; [apply flat_inv_trivia; assumption|].
     unfold flat_out. rewrite !ncr_app, (ncr_comment c Hc), (ncr_ws w Hw). cbn [app].
     assert (El : ncr le = le_out [] le) by (destruct Hl as [[-> | ->] | [-> _]]; reflexivity).
     rewrite El, <- !app_assoc. reflexivity. }
@@ -285,7 +291,7 @@ Proof.
     exists [], (t ++ w1 ++ c), [if arr then SArrHeader p else SHeader p], (t ++ w1 ++ c), le, w.
     split; [reflexivity|]. split; [apply header_item_text; assumption|]. split; [exact Hw|].
     split; [pose proof (splits_trans _ _ _ _ _ Sp Sw) as S; rewrite <- !app_assoc in *; exact S|].
-    split; [apply Hend, Hl|]. split; [exact Hi1|]. intros kvl i0 pend _ Hf. destruct arr; discriminate Hf. }
+    split; [apply Hend, Hl|]. split; [exact Hi1|]. intros kvl outs i0 pend _ Hf. destruct arr; discriminate Hf. }
   destruct (byte_eqb b LF || byte_eqb b CR).
   { (* a blank line *)
     unfold parse_newline in H2. apply pmap_inv in H2 as (sp & H2 & ->). pose proof H2 as H2'. apply span_inv in H2' as (u0 & _ & ->).
@@ -293,7 +299,7 @@ Proof.
     destruct (isrc_splits s i nl j1 Hi S1) as [Hj1 _]. destruct (isrc_splits s j1 w i1 Hj1 Sw) as [Hi1 _].
     exists [], [], [], [], nl, w. split; [reflexivity|]. split; [apply itx_blank|]. split; [exact Hw|].
     split; [exact (splits_trans _ _ _ _ _ S1 Sw)|]. split; [left; exact Hn|]. split; [exact Hi1|].
-    intros kvl i0 pend HI _. exists kvl, i0, (pend ++ nl ++ w). split; [apply flat_inv_trivia; assumption|].
+    intros kvl outs i0 pend HI _. exists kvl, outs, i0, (pend ++ nl ++ w). split; [apply flat_inv_trivia; assumption|].
     unfold flat_out. rewrite !ncr_app, (ncr_newline nl Hn), (ncr_ws w Hw), (newline_le_out [] nl Hn). cbn [app]. rewrite <- !app_assoc. reflexivity. }
   (* key = value *)
   apply cut_err_inv in H2. unfold keyval in H2. apply try_map_inv in H2 as (x & H2 & Hst).
@@ -304,23 +310,60 @@ Proof.
   split; [exact Hw0|]. split; [apply itx_keyval; assumption|]. split; [exact Hw|].
   split; [pose proof (splits_trans _ _ _ _ _ Sp Sw) as S; rewrite <- !app_assoc in *; exact S|].
   split; [apply Hend, Hl|]. split; [exact Hi1|].
-  intros kvl i0 pend (Hr & Hp & (ps & sp & Hcur) & Hu & Htr & Hi0 & Spend) Hf. cbn [flat forallb] in Hf. rewrite andb_true_r in Hf.
-  destruct (Hflat Hf) as (k & v & -> & Huv & Epre & Hline).
+  intros kvl outs i0 pend (Hr & Hp & (ps & sp & Hcur) & Hu & Htr & Hi0 & Spend) Hf. cbn [flat forallb flat_stmt] in Hf. rewrite andb_true_r in Hf.
+  apply Nat.eqb_eq in Hf. destruct (Hflat Hf) as (k & v & -> & Epre & Hline).
   destruct (on_keyval_sp st [] k (IValue v)) as [st'| |] eqn:Eo; try discriminate. cbn [lift_state] in Hst. injection Hst as <-.
   destruct (on_keyval_flat st k v _ ps sp st' Hcur Eo) as (P & sp' & Er' & Ep' & Et' & Ec' & EP).
-  exists (kvl ++ [(with_prefix k P, v)]), j1, w. split.
+  (* the printed line starts with the pending trivia *)
+  assert (HP : raw_encode (traw s P) [] = ncr pend ++ w0).
+  { rewrite EP, Htr, Epre, raw_span_with_span. cbn [fst snd].
+    destruct (pos i =? pos j0)%N eqn:Q.
+    - apply N.eqb_eq in Q. assert (w0 = []) by (apply (splits_empty_iff i w0 j0 S0); exact Q). subst w0.
+      cbv iota. rewrite (span_prints s i0 pend i [] Hi0 Spend). rewrite app_nil_r. reflexivity.
+    - cbv iota. cbn [fst snd]. rewrite (span_prints s i0 (pend ++ w0) j0 [] Hi0 (splits_trans _ _ _ _ _ Spend S0)). rewrite ncr_app, (ncr_ws w0 Hw0). reflexivity. }
+  exists (kvl ++ [(with_prefix k P, v)]), (outs ++ [(ncr pend ++ w0) ++ ((kt ++ w1 ++ [x3d] ++ w2 ++ o) ++ wt ++ c) ++ [x0a]]), j1, w. split.
   - unfold flat_inv, on_ws. cbn [st_root st_path st_current st_trailing]. rewrite Er', Ep', Et', Ec'.
     split; [exact Hr|]. split; [exact Hp|]. split; [exists ps, sp'; rewrite map_app; reflexivity|].
-    split; [apply Forall_app; split; [exact Hu|constructor; [exact Huv|constructor]]|]. auto.
-  - (* the printed line starts with the pending trivia *)
-    assert (HP : raw_encode (traw s P) [] = ncr pend ++ w0).
-    { rewrite EP, Htr, Epre, raw_span_with_span. cbn [fst snd].
-      destruct (pos i =? pos j0)%N eqn:Q.
-      - apply N.eqb_eq in Q. assert (w0 = []) by (apply (splits_empty_iff i w0 j0 S0); exact Q). subst w0.
-        cbv iota. rewrite (span_prints s i0 pend i [] Hi0 Spend). rewrite app_nil_r. reflexivity.
-      - cbv iota. cbn [fst snd]. rewrite (span_prints s i0 (pend ++ w0) j0 [] Hi0 (splits_trans _ _ _ _ _ Spend S0)). rewrite ncr_app, (ncr_ws w0 Hw0). reflexivity. }
-    unfold flat_out. rewrite flat_map_app. cbn [flat_map]. rewrite app_nil_r.
-    rewrite <- app_assoc. rewrite (Hline P (ncr w)). rewrite HP, (ncr_ws w Hw).
+    split; [|auto]. apply Forall2_app; [exact Hu|]. constructor; [|constructor].
+    intros Hv z. cbn [snd] in Hv. rewrite (Hline Hv P z), HP. rewrite <- !app_assoc. reflexivity.
+  - unfold flat_out. rewrite concat_app. cbn [concat]. rewrite app_nil_r, (ncr_ws w Hw).
     assert (El : le_out [SKeyVal p a] le = [x0a]) by (destruct Hl as [[-> | ->] | [-> _]]; reflexivity).
     rewrite El. rewrite <- !app_assoc. reflexivity.
+Qed.
+
+(* ---- the loop ------------------------------------------------------------------------------------------------- *)
+Lemma step_ok_nil s st i : step_ok s st i st i [] [].
+Proof. intros kvl outs i0 pend HI _. exists kvl, outs, i0, pend. split; [exact HI|]. rewrite app_nil_r. reflexivity. Qed.
+
+Lemma flat_app l1 l2 : flat (l1 ++ l2) = flat l1 && flat l2.
+Proof. apply forallb_app. Qed.
+
+Lemma step_ok_trans s st i st1 i1 st2 i2 l1 o1 l2 o2 :
+  step_ok s st i st1 i1 l1 o1 -> step_ok s st1 i1 st2 i2 l2 o2 -> step_ok s st i st2 i2 (l1 ++ l2) (o1 ++ o2).
+Proof.
+  intros H1 H2 kvl outs i0 pend HI Hf. rewrite flat_app in Hf. apply andb_true_iff in Hf as [Hf1 Hf2].
+  destruct (H1 kvl outs i0 pend HI Hf1) as (kvl1 & outs1 & i01 & pend1 & HI1 & E1).
+  destruct (H2 kvl1 outs1 i01 pend1 HI1 Hf2) as (kvl2 & outs2 & i02 & pend2 & HI2 & E2).
+  exists kvl2, outs2, i02, pend2. split; [exact HI2|]. rewrite E2, E1, <- app_assoc. reflexivity.
+Qed.
+
+Lemma doc_loop_render s : forall fuel st i st' i', isrc s i -> doc_loop fuel st i = Ok st' i' ->
+  exists t l o, splits i t i' /\ lines_text t l o /\ isrc s i' /\ step_ok s st i st' i' l o.
+Proof.
+  induction fuel as [|f IH]; intros st i st' i' Hi H; [discriminate|]. cbn [doc_loop] in H.
+  destruct (doc_line st i) as [st1 i1|e j|e j|x] eqn:E; try discriminate.
+  - destruct (Nat.eqb (length (rest i1)) (length (rest i))); [discriminate|].
+    destruct (doc_line_render s st i st1 i1 Hi E) as (w0 & e & l & o & le & w & Hw0 & He & Hw & Sp & Hle & Hi1 & Hok).
+    destruct Hle as [Hn | (-> & -> & R1)].
+    + destruct (IH st1 i1 st' i' Hi1 H) as (t & l' & o' & St & Hlt & Hi' & Hok').
+      exists ((w0 ++ e ++ le ++ w) ++ t), (l ++ l'), ((w0 ++ o ++ le_out l le ++ w) ++ o').
+      split; [exact (splits_trans _ _ _ _ _ Sp St)|]. split; [|split; [exact Hi'|exact (step_ok_trans _ _ _ _ _ _ _ _ _ _ _ Hok Hok')]].
+      rewrite (newline_le_out l le Hn).
+      replace ((w0 ++ e ++ le ++ w) ++ t) with (w0 ++ e ++ le ++ w ++ t) by (rewrite <- !app_assoc; reflexivity).
+      replace ((w0 ++ o ++ [x0a] ++ w) ++ o') with (w0 ++ o ++ [x0a] ++ w ++ o') by (rewrite <- !app_assoc; reflexivity).
+      apply ltx_cons; assumption.
+    + destruct (doc_loop_at_end f st1 i1 st' i' R1 H) as [-> ->].
+      exists (w0 ++ e), l, (w0 ++ o ++ stmt_lf l). rewrite !app_nil_r in Sp. split; [exact Sp|]. split; [apply ltx_last; assumption|].
+      split; [exact Hi1|]. cbn [le_out] in Hok. rewrite app_nil_r in Hok. exact Hok.
+  - injection H as <- <-. exists [], [], []. split; [apply splits_nil|]. split; [apply ltx_nil|]. split; [exact Hi|apply step_ok_nil].
 Qed.
